@@ -429,8 +429,13 @@ func getTimeRangesForVectorSelector(n *parser.VectorSelector, opts *query.Option
 		end = opts.SelectEnd.UnixMilli()
 	}
 	if n.Timestamp != nil {
+		// A pinned selector is normally evaluated below a step-invariant node,
+		// for one step. Where it is not (the parameter of an aggregation is
+		// not made step-invariant by the Prometheus preprocessor, and both
+		// engines then evaluate it with an offset relative to the first step),
+		// the time it reads moves with the steps: the select has to cover that.
 		start = *n.Timestamp
-		end = *n.Timestamp
+		end = *n.Timestamp + (opts.End.UnixMilli() - opts.Start.UnixMilli())
 	}
 	if evalRange == 0 {
 		start -= opts.LookbackDelta.Milliseconds()
